@@ -225,7 +225,12 @@ def gen_random(rnd, ops, n_hist, length, depths=(1, 2, 3, 4, 5)):
                 n = rnd.choice([0, 0, 1, 2, 3, rnd.randrange(cap + 1)])
                 k = rnd.choice([0, 1, 1, 2, 3, rnd.randrange(cap + 1)])
                 rem = [rnd.choice([rnd.randrange(cap), rnd.randrange(cap), cap - 1, 0, cap]) for _ in range(k)]
-                scen.append({"c": "override", "s": pos(), "vs": [v() for _ in range(n)], "rem": rem})
+                st = pos()
+                if rnd.random() < 0.12:
+                    # more leaves than the tree holds (from position 0 and elsewhere), with removals of written positions
+                    n, st = cap + rnd.choice([1, 2]), rnd.choice([0, 0, 1])
+                    rem = rem or [rnd.randrange(cap)]
+                scen.append({"c": "override", "s": st, "vs": [v() for _ in range(n)], "rem": rem})
             elif c == "init":
                 n = rnd.choice([0, 1, 2, cap, rnd.randrange(cap + 1)])
                 scen.append({"c": "init", "vs": [v() for _ in range(n)]})
@@ -402,7 +407,9 @@ def run_property(prop, tier, out, binary=None):
     sc, cov = walk(edges2, 2, rnd, steps, prefer)
     scenarios.append(("tour-d2", sc, ["full", "optimal", "pm"] if not quick else ["full", "optimal", "pm"]))
     out.notes.append(f"depth-2 transition tour: {len(edges2)} model transitions emitted by TLC, {cov} distinct covered by a {len(sc) - 1}-call walk")
-    edges1, _ = gen_edges(wd, "d1", 1, [0, 1, 2], 2, 3, ops)
+    # (depth 1 with batches of up to THREE leaves: longer than the capacity, so that every oversized write - at every
+    #  start, with every removal subset - is a transition of the model: rejected, nothing changed)
+    edges1, _ = gen_edges(wd, "d1", 1, [0, 1, 2] if not quick else [0, 1], 3, 3, ops)
     sc1, cov1 = walk(edges1, 1, rnd, len(edges1) + 200)
     scenarios.append(("tour-d1", sc1, ["full", "optimal", "pm"]))
     out.notes.append(f"depth-1 transition tour: {len(edges1)} transitions, {cov1} covered")
